@@ -1,7 +1,7 @@
 (* C11 -- power and energy agree across train, consist and locomotive levels. Pinned statements only. *)
 From Coq Require Import Reals List Bool.
-From AltModel Require Import Num Interp Powertrain Loco Consist TrainEnergy Resist Braking TrainStep TrainFull.
-From AltProofs Require Import NumR ConsistP C10P C01P C11P TrainFullP.
+From AltModel Require Import Num Interp Powertrain Loco Consist TrainEnergy SpeedPoints PathGeom Resist Braking TrainStep TrainFull WholeSim.
+From AltProofs Require Import NumR LocoP C08P ConsistP C10P C01P C11P SpeedPointsP PathGeomP BrakingP TrainFullP WholeSimP EndToEndP.
 Import ListNotations.
 Open Scope R_scope.
 
@@ -70,3 +70,35 @@ Theorem C11_whole_walk : forall (e : Env (F:=R)) pts offset_end fmax fuel x x',
   sl_full_walk fuel e pts offset_end fmax x = Ok x' ->
   cinv (snd x') /\ levels_agree (te_of (sl_st (fst x')), snd x').
 Proof. exact sl_full_walk_levels. Qed.
+
+(* ---- END TO END (coq/model/WholeSim.v): from the user's inputs -- network, train parameters, route, resistance
+   parameters, friction brake, initial state, consist -- through PathTpc::extend, BrakingPoints::recalc and
+   walk() to the final state.  Tied to the real SpeedLimitTrainSim::extend_path + walk() end to end (kind
+   sl_whole_sim of this check: same number of steps, bit-equal final train / brake / consist state, or the same
+   error).  For EVERY accepted simulation the statement collects what the per-property theorems give. ---- *)
+Theorem C11_end_to_end_simulation :
+  forall fuel_bp fuel_walk (net : list LinkR) (tp : TPR) route rp fmax fb st cache (con : ConsistR) x',
+  sl_whole_sim fuel_bp fuel_walk net tp route rp fmax fb st cache con = Ok x' ->
+  0 <= k_dt (ts_k st) -> 0 < mass_compound (ts_p st) ->
+  exists p pts idx n,
+    let s0 := {| sl_st := st; sl_cache := cache; sl_fb := fb; sl_idx := idx |} in
+    let e := env_of_path p rp in
+    extend_many net (new_path tp) [route] = Ok p /\
+    (route_ok net tp route -> forall x, 0 <= x ->
+       let P := eval_speed (p_speed_points p) x in
+       P <= tp_speed_max tp /\ (forall v, posted tp 0 (route_sets net tp route) x v -> P <= v) /\
+       (P = tp_speed_max tp \/ posted tp 0 (route_sets net tp route) x P)) /\
+    recalc fuel_bp (brkenv_of_path p rp (fb_force_max fb)) (path_offset_end p) st cache = Ok (pts, idx) /\
+    Forall pt_ok pts /\
+    sl_full_run n e pts fmax (s0, con) = Ok x' /\
+    (path_offset_end p - ft1000 <= k_offset (ts_k (sl_st (fst x'))) /\
+     (path_offset_end p <= k_offset (ts_k (sl_st (fst x'))) \/ k_speed (ts_k (sl_st (fst x'))) = 0)) /\
+    (forall k y y', (k < n)%nat -> sl_full_run k e pts fmax (s0, con) = Ok y -> sl_full_step e pts fmax y = Ok y' ->
+       0 <= k_speed_target (ts_k (sl_st (fst y'))) <= k_speed_limit (ts_k (sl_st (fst y'))) /\
+       k_speed (ts_k (sl_st (fst y))) <= k_speed_limit (ts_k (sl_st (fst y')))) /\
+    (0 < k_dt (ts_k st) -> Forall loco_ok (cn_locos con) ->
+       Forall loco_ok (cn_locos (snd x')) /\ Forall2 cum_le (cn_locos con) (cn_locos (snd x'))) /\
+    (cinv con -> levels_agree (te_of st, con) ->
+       (forall k y, sl_full_run k e pts fmax (s0, con) = Ok y -> (1 <= k)%nat -> limits_nonneg (snd y)) ->
+       cinv (snd x') /\ levels_agree (te_of (sl_st (fst x')), snd x')).
+Proof. exact sl_whole_sim_sound. Qed.
